@@ -28,6 +28,21 @@ CLAIMED['C09'] = dict(tech='guard-dominance + sibling deviance on divisions by b
          'exist with the right polarity and dominate Ok construction; counting increments (position, symbol). The floating-point arithmetic itself is not decided.',
     ref='DESIGN.md §4 C09')
 
+CLAIMED['C02'] = dict(tech='guard dominance / check-before-use on the scanner loop, linear-form position formula, estimate-direction (UP/DOWN) classification of the 8-bit comparisons',
+    text='Static (part): in Scanner::next the block maximum is never unwrapped unguarded, a candidate index is bounded by the number of valid positions before it is rescored, '
+         'the position formula is col*(rows-wrap)+block start+row, the exact and 8-bit comparisons are inclusive with the 8-bit threshold an under-estimate, the block ranges partition the sequence rows, '
+         'and hits are pushed once and only popped. These are necessary conditions of the property on every input; numerical equality of scores is reduced to C01.',
+    ref='DESIGN.md §4 C02')
+CLAIMED['C03'] = dict(tech='estimate-direction (UP/DOWN) dataflow on the pruning bound + guard dominance on every update of the best hit',
+    text='Static (part): every value assigned to the pruning bound of Scanner::max is scale(exact score) (an under-estimate), all 8-bit tests are inclusive, candidates are bounded before rescoring, '
+         'best is seeded from buffered hits >= threshold and replaced only under an exact comparison (first candidate: score >= threshold). With C08 these imply exact maximality (paper argument).',
+    ref='DESIGN.md §4 C03')
+CLAIMED['C08'] = dict(tech='estimate-direction analysis: rounding-direction and field-plumbing rules on to_discrete/scale, saturation inventory over every Score<u8> implementation, orientation of pruning comparisons',
+    text='Static: cells are ceil((x-offset_i)/factor) (UP) and the threshold mapping is floor((s-offset)/factor) (DOWN) over the same stored fields; every 8-bit accumulation reachable from a '
+         'Score<u8> implementation is inventoried and must saturate; pruning comparisons are UP >= DOWN. The inequality follows by monotonicity for all matrices/sequences. '
+         'One recorded known finding (generic kernel uses +=).',
+    ref='DESIGN.md §4 C08')
+
 NA = {
     'C11': 'numeric agreement of a tabulated distribution with the exact tail probability: quantifies over run-time floating-point values; no sound static argument in reach (DESIGN.md §6)',
     'C12': 'bounds computed probability ranges by exact tail probabilities at a granularity: run-time numerics, no structural necessary condition (DESIGN.md §6)',
